@@ -96,7 +96,9 @@ pub fn update_baseline_from_results(
     };
 
     for result in results {
-        if !result.is_failed() {
+        // A violation the loaded baseline already grandfathers is still a violation:
+        // skipping it here would silently drop its entry from the rewritten baseline.
+        if !(result.is_failed() || result.is_grandfathered()) {
             continue;
         }
 
